@@ -88,6 +88,8 @@ fn insert_idle_once_wrapper<F: FnOnce(&mut Data)>(opt_cb: &mut Option<F>, data: 
         // C13: the user's callback is consumed by its first run: however often the wrapper is dispatched afterwards,
         // it can never run a second time
         *final(opt_cb) is None,
+        // ... and its first run DOES call it (must-call): the wrapper does not swallow the user's callback
+        *old(opt_cb) matches Some(cb) ==> exists|d0: &mut Data| #[trigger] call_ensures(cb, (d0,), ()),
 //@ endslice
 
 //@ slice src/loop_logic.rs / impl LoopHandle<'l, Data> / fn insert_idle :: stmts <<self.inner.idles.borrow_mut()>> .. <<Idle {>> props=C13 name=LoopHandle::insert_idle::enqueue
